@@ -268,7 +268,7 @@ pub struct Activation {
     pub id: u64,
 }
 
-#[derive(Clone, Debug)]
+#[derive(Clone, Debug, serde::Serialize, serde::Deserialize)]
 pub struct Inputs {
     pub regs: [u32; 32],
     pub mem_seed: u32,
